@@ -250,11 +250,7 @@ def _shots_pair(prog, chk):
 def _cli(prog, chk, R):
     _shots_pair(prog, chk)
     _declarator_siblings(prog, chk)
-    cli = [f for f in prog.functions if f.file.endswith('cli.cpp') and f.body and any(
-        n['k'] == 'mcall' and SX.short(n['callee']) == 'trackedCounts' for n in SX.walk(f.body, into_lambdas=False))]
-    if len(cli) != 1:
-        raise AnalysisBroken('CLI run function not found')
-    f = cli[0]
+    f = cli_run_function(prog, 'trackedCounts')
     from ..kernels import enclosing_stmts
     # aggregate accumulation inside the shot loop
     tc = [n for n in SX.walk(f.body, into_lambdas=False) if n['k'] == 'mcall' and SX.short(n['callee']) == 'trackedCounts']
@@ -279,67 +275,41 @@ def _cli(prog, chk, R):
         rinit = [c for c in g.nodes if c.kind == 'rangeinit' and c.e is fr[0]]
         ok = ok and bool(rinit) and all(g.must_follow(x, rinit, use_x=False) for x in ex if g.dominates(x, node[0]))
     chk.ob('R17.4', f, tc[0].get('ln', f.ln), ok, 'every shot\'s counts (all variables × all outcomes) are added into the aggregate, inside the shot loop, after execute', key='aggregate-sum')
-    # policy tables by abstract evaluation of the extracted statements
-    names = {}
-    for v in SX.walk(f.body, into_lambdas=False):
-        if v['k'] == 'var':
-            names.setdefault(v['name'], v)
-    for v in SX.walk(f.body, into_lambdas=False):
-        if v['k'] == 'var' and v['type'] == 'bool' and SX.is_node(v.get('init')) and 'shots.first' in SX.show(v['init']).replace('->', '.').replace('(*program)', 'program'):
-            names['isAnnotationShots'] = v     # the inner declaration that reads Program::shots (an outer one of the same name is shadowed)
-    need = ['isCliShots', 'cliShots', 'shots', 'shotsProvided', 'echoOpt', 'echoAll', 'isAnnotationShots']
-    if not all(n in names for n in need):
-        raise AnalysisBroken('CLI policy variables not found: %s' % [n for n in need if n not in names])
-    # the statements between the declaration of isAnnotationShots and the analyser construction
-    block = None
-    for b in SX.walk(f.body, into_lambdas=False):
-        if b['k'] == 'block' and any(s['k'] == 'decls' and any(v is names['isAnnotationShots'] for v in s['d']) for s in b['body']):
-            block = b
-    stmts = []
-    take = False
-    for s in block['body']:
-        if s['k'] == 'decls' and any(v is names['isAnnotationShots'] for v in s['d']):
-            take = True
-            continue
-        if s['k'] == 'decls' and any('SemanticAnalyser' in v['type'] for v in s['d']):
-            break
-        if take:
-            stmts.append(s)
+    # policy tables by abstract evaluation of the slice of the run function that computes the three decisions (multi-shot mode,
+    # number of shots, echo) from the command-line inputs and the program's (annotated, N) pair — found by data flow, not by name
+    pol = _policy_slice(prog, f)
     bad_s, bad_e = [], []
     nst = 0
     for cli_f, ann in itertools.product((False, True), repeat=2):
         for cliN, annN in ((1, 1), (1, 5), (5, 1), (3, 5)):
             for opt in ('', 'auto', 'all'):
                 nst += 1
-                env = {names['isCliShots']['id']: cli_f, names['cliShots']['id']: cliN if cli_f else 1, names['shots']['id']: 1,
-                       names['shotsProvided']['id']: False, names['echoOpt']['id']: opt, names['isAnnotationShots']['id']: ann}
                 prog_obj = Obj(shots=Obj(first=ann, second=annN if ann else 1))
                 it = Interp(prog, {'blochWarning': lambda it, e, env: None, 'blochInfo': lambda it, e, env: None,
                                    'empty': lambda it, e, env: len(it.expr(e['obj'], env)) == 0,
                                    'op:->': lambda it, e, env: prog_obj, 'op:*': lambda it, e, env: prog_obj})
                 try:
-                    for s in stmts:
-                        it.stmt(s, env)
+                    shots, provided, echos = pol.run(it, {'flag': cli_f, 'n': cliN if cli_f else 1, 'echo': opt})
                 except Unsupported as e:
                     raise AnalysisBroken('CLI policy statements: %s' % e)
-                shots = env[names['shots']['id']]
-                provided = env[names['shotsProvided']['id']]
-                echo = env[names['echoAll']['id']]
                 want_shots = annN if ann else (cliN if cli_f else 1)
                 want_prov = ann or cli_f
-                if shots != want_shots or bool(provided) != want_prov:
+                # the number of shots matters only in multi-shot mode; a single run is one shot whatever the variable holds
+                if bool(provided) != want_prov or (want_prov and shots != want_shots):
                     bad_s.append((cli_f, ann, cliN, annN, shots, provided))
                 want_echo = (opt == 'all') or (opt in ('', 'auto') and (not want_prov or want_shots == 1))
-                if bool(echo) != want_echo:
-                    bad_e.append((opt, want_prov, want_shots, echo))
+                for echo in echos[bool(provided)]:
+                    if bool(echo) != want_echo:
+                        bad_e.append((opt, want_prov, want_shots, echo))
     chk.extra['cli_policy_states'] = nst
-    chk.ob('R17.4', f, names['shots'].get('ln', f.ln), not bad_s, '@shots(N) takes precedence over --shots; either one enables multi-shot mode; counterexamples: %s' % bad_s[:3], key='shots-policy')
-    chk.ob('R17.4', f, names['echoAll'].get('ln', f.ln), not bad_e, 'echo iff --echo=all, or --echo absent/auto with a single shot; counterexamples: %s' % bad_e[:3], key='echo-policy')
-    # echo policy reaches every evaluator: setEcho(echoAll) before execute at every site
+    chk.extra['cli_policy_inputs'] = pol.describe()
+    chk.ob('R17.4', f, pol.ln_shots or f.ln, not bad_s, '@shots(N) takes precedence over --shots; either one enables multi-shot mode; counterexamples: %s' % bad_s[:3], key='shots-policy')
+    chk.ob('R17.4', f, pol.ln_echo or f.ln, not bad_e, 'echo iff --echo=all, or --echo absent/auto with a single shot; counterexamples: %s' % bad_e[:3], key='echo-policy')
+    # echo policy reaches every evaluator: setEcho(<decision>) before execute at every site
     g = prog.cfg(f)
     for i, ex in enumerate(g.calls(lambda e: e['k'] == 'mcall' and SX.short(e['callee']) == 'execute')):
         obj = SX.show(ex.e['obj'])
-        se = [c for c in g.calls(lambda e: e['k'] == 'mcall' and SX.short(e['callee']) == 'setEcho' and SX.show(e['obj']) == obj and SX.strip(SX.real_args(e)[0]).get('id') == names['echoAll']['id'])]
+        se = [c for c in g.calls(lambda e: e['k'] == 'mcall' and SX.short(e['callee']) == 'setEcho' and SX.show(e['obj']) == obj)]
         chk.ob('R17.4', f, ex.ln, bool(se) and g.must_precede(se, ex), 'the echo decision is applied to the evaluator before it executes', key='echo-applied#%d' % i)
     # ---- R17.5 ---------------------------------------------------------------------------------
     # the printing code may live in runImpl or in a helper of the same file that runImpl reaches
@@ -367,3 +337,268 @@ def _cli(prog, chk, R):
                 why = 'divisor %s = Σ counts over %s: %s' % (d['name'], SX.show(lp[-1]['range']) if lp else '?', ok)
         chk.ob('R17.5', f, n.get('ln', f.ln), ok, 'probability = count / (sum of that variable\'s counts), so the column sums to 1 whatever the number of scope exits per shot; %s' % why,
                key='denominator')
+
+
+def cli_run_function(prog, marker):
+    """the CLI function that runs the program: the one whose body — with its file-local helpers inlined (K-NORM) — calls
+    evaluator.<marker>() and is not itself inlined into another such function"""
+    from ..knorm import normalise
+    cands = []
+    for f0 in prog.functions:
+        if not (f0.file.endswith('cli.cpp') and f0.body and f0.kind != 'lambda'):
+            continue
+        fn_ = normalise(prog, f0)
+        if any(n['k'] == 'mcall' and SX.short(n['callee']) == marker for n in SX.walk(fn_.body, into_lambdas=False)):
+            cands.append((f0, fn_))
+    keys = {f0.key for f0, _ in cands}
+    top = [(f0, fn_) for f0, fn_ in cands if not any(c.key in keys and c is not f0 for c, _ in prog.callers(f0))]
+    if len(top) != 1:
+        raise AnalysisBroken('CLI run function not found')
+    return top[0][1]
+
+
+class _PolicySlice:
+    def __init__(self):
+        self.stmts = []       # (statement, 'exec' | 'input')
+        self.inputs = {}      # role → location
+        self.ln_shots = self.ln_echo = None
+
+    def describe(self):
+        return {k: _loc_text(v) for k, v in self.inputs.items()}
+
+    def run(self, it, vals):
+        import copy as _copy
+        env = {}
+
+        def put(loc, v):
+            if loc[0] == 'v':
+                env[loc[1]] = v
+            else:
+                o = env.get(loc[1])
+                if not isinstance(o, Obj):
+                    o = env[loc[1]] = Obj()
+                o[loc[2]] = v
+        for st, kind in self.stmts:
+            if kind == 'input':
+                for role, loc in self.inputs.items():
+                    put(loc, vals[role])
+            else:
+                it.stmt(st, env)
+        provided = it.truth(it.expr(self.multi_cond, env))
+        envb = dict(env)
+        for d in self.bound_pre:
+            it.stmt(d, envb)
+        shots = it.expr(self.bound, envb)
+        echos = {True: [], False: []}
+        for branch, e, pre in self.echo_sites:
+            env2 = dict(env)
+            for d in pre:
+                it.stmt(d, env2)
+            echos[branch].append(it.expr(e, env2))
+        return shots, provided, echos
+
+
+def _loc_text(loc):
+    return loc[-1] if loc[0] == 'v' else '%s.%s' % (loc[3] if len(loc) > 3 else '?', loc[2])
+
+
+def _loc(e):
+    """location key of an lvalue/rvalue expression: a local/parameter, or a field of a local record"""
+    e = SX.strip(e)
+    while SX.is_node(e) and e.get('k') == 'cast':
+        e = SX.strip(e['e'])
+    if SX.is_node(e) and e.get('k') == 'ref' and e.get('kind') in ('var', 'param') and e.get('id'):
+        return ('v', e['id'])
+    if SX.is_node(e) and e.get('k') == 'member':
+        b = SX.strip(e.get('base'))
+        if SX.is_node(b) and b.get('k') == 'ref' and b.get('kind') in ('var', 'param') and b.get('id'):
+            return ('m', b['id'], e['name'])
+    return None
+
+
+def _reads(s):
+    out = set()
+    for n in SX.walk(s):
+        if n['k'] == 'ref' and n.get('kind') in ('var', 'param') and n.get('id'):
+            out.add(('v', n['id']))
+        if n['k'] == 'member':
+            l = _loc(n)
+            if l:
+                out.add(l)
+    return out
+
+
+def _writes(s):
+    out = set()
+    for n in SX.walk(s):
+        if n['k'] == 'var' and n.get('id'):
+            out.add(('v', n['id']))
+        w = SX.write_target(n)
+        if w:
+            l = _loc(w[0])
+            if l:
+                out.add(l)
+    return out
+
+
+def _policy_slice(prog, f):
+    from ..kernels import enclosing_stmts
+    P = _PolicySlice()
+    # ---- sinks: the shot loop around execute(), the branch that selects it, the argument of every setEcho ------------------
+    execs = [n for n in SX.walk(f.body, into_lambdas=False) if n['k'] == 'mcall' and SX.short(n['callee']) == 'execute']
+    loop = None
+    for n in execs:
+        for st in enclosing_stmts(f.body, n):
+            if st['k'] == 'for':
+                loop = (st, n)
+    if loop is None:
+        raise AnalysisBroken('CLI: no shot loop around execute()')
+    cp = SX.cmp_parts(loop[0].get('c')) if SX.is_node(loop[0].get('c')) else None
+    if not cp or cp[0] != '<':
+        raise AnalysisBroken('CLI: shot loop bound not recognised')
+    P.bound = cp[2]
+    P.ln_shots = loop[0].get('ln')
+    ifs = [st for st in enclosing_stmts(f.body, loop[0]) if st['k'] == 'if' and any(x is loop[0] for x in SX.walk(st['t']))]
+    if not ifs:
+        raise AnalysisBroken('CLI: the shot loop is not selected by a branch')
+    multi_if = ifs[-1]
+    P.multi_cond = multi_if['c']
+
+    def pre_decls(a, n):
+        # declarations between the branch and node n that expression a depends on (value parameters of inlined helpers)
+        pre = []
+        need = set(_reads(a))
+        chain = [st for st in enclosing_stmts(f.body, n) if st['k'] == 'block' and any(x is st for x in SX.walk(multi_if))]
+        for blk in chain:
+            stmts_ = []
+            for st in blk['body']:
+                if any(x is n for x in SX.walk(st)):
+                    break
+                stmts_.append(st)
+            for st in reversed(stmts_):
+                if st['k'] == 'decls' and (_writes(st) & need):
+                    pre.insert(0, st)
+                    need |= _reads(st)
+        return pre
+    P.bound_pre = pre_decls(P.bound, loop[0])
+    P.echo_sites = []
+    for n in SX.walk(f.body, into_lambdas=False):
+        if n['k'] == 'mcall' and SX.short(n['callee']) == 'setEcho':
+            in_multi = any(x is n for x in SX.walk(multi_if['t']))
+            a = SX.real_args(n)[0]
+            P.echo_sites.append((in_multi, a, pre_decls(a, n)))
+            P.ln_echo = P.ln_echo or n.get('ln')
+    if not any(b for b, _, _ in P.echo_sites) or not any(not b for b, _, _ in P.echo_sites):
+        raise AnalysisBroken('CLI: setEcho not found in both the single-run and the multi-shot branch')
+    # ---- the statements in front of the branch, flattened through try blocks ----------------------------------------------
+    flat = []
+
+    def flatten(stmts):
+        for st in stmts:
+            if any(x is multi_if for x in SX.walk(st)) and st is not multi_if:
+                if st['k'] == 'try':
+                    flatten(st['body']['body'] if st['body'].get('k') == 'block' else [st['body']])
+                    return True
+                if st['k'] == 'block':
+                    if flatten(st['body']):
+                        return True
+                raise AnalysisBroken('CLI: the run branch is nested in a %s statement' % st['k'])
+            if st is multi_if:
+                return True
+            flat.append(st)
+        return False
+    if not flatten(f.body['body']):
+        raise AnalysisBroken('CLI: run branch not found at statement level')
+    # ---- backward closure of the locations the sinks depend on ------------------------------------------------------------------
+    rel = _reads(P.multi_cond) | _reads(P.bound)
+    for d in P.bound_pre:
+        rel |= _reads(d)
+    for _, a, pre in P.echo_sites:
+        rel |= _reads(a)
+        for d in pre:
+            rel |= _reads(d)
+    inputs = set()
+
+    def is_input_def(st):
+        # the argument loop, or a call that fills a record / scalars through non-const references
+        if st['k'] in ('for', 'while', 'forrange', 'do'):
+            return True
+        for n in SX.walk(st, into_lambdas=False):
+            if n['k'] in ('call', 'mcall'):
+                for t in prog.resolve(n):
+                    for prm, a in zip(t.params, SX.real_args(n)):
+                        ty = (prm.get('type') or '').strip()
+                        if ty.endswith('&') and not ty.startswith('const') and _loc(a) is not None:
+                            return True
+        return False
+
+    def writes_of(st):
+        w = _writes(st)
+        if st['k'] not in ('for', 'while', 'forrange', 'do'):
+            for n in SX.walk(st, into_lambdas=False):
+                if n['k'] in ('call', 'mcall'):
+                    for t in prog.resolve(n):
+                        for prm, a in zip(t.params, SX.real_args(n)):
+                            ty = (prm.get('type') or '').strip()
+                            l = _loc(a)
+                            if ty.endswith('&') and not ty.startswith('const') and l is not None and l[0] == 'v':
+                                w.add(('v*', l[1]))      # the whole object (every field) may be written by the callee
+        return w
+    changed = True
+    chosen = set()
+    while changed:
+        changed = False
+        for i, st in enumerate(flat):
+            w = writes_of(st)
+            hit = {l for l in rel if l in w or (l[0] == 'm' and (('v*', l[1]) in w)) or (l[0] == 'v' and ('v*', l[1]) in w)}
+            whole = {l for l in rel if l[0] == 'm' and ('v', l[1]) in w}       # declaration of the record a relevant field belongs to
+            if not hit and not whole:
+                continue
+            if st['k'] == 'decls' and any('compiler::Program' in (v.get('type') or '') for v in st['d']):
+                continue      # the loaded program is a source: its (annotated, N) pair is enumerated, not computed
+            if is_input_def(st):
+                new_in = hit - inputs
+                if new_in or i not in chosen:
+                    inputs |= hit
+                    chosen.add(i)
+                    changed = True
+                continue
+            if i not in chosen:
+                chosen.add(i)
+                changed = True
+            r = _reads(st) - rel
+            if r:
+                rel |= r
+                changed = True
+    # ---- classify the inputs by type ------------------------------------------------------------------------------------------
+    types = {}
+    names = {}
+    for n in SX.walk(f.body):
+        if n['k'] == 'var' and n.get('id'):
+            types[('v', n['id'])] = n.get('type', '')
+            names[n['id']] = n.get('name', '')
+        if n['k'] == 'member':
+            l = _loc(n)
+            if l:
+                types[l] = n.get('t', '')
+    by = {'flag': [], 'n': [], 'echo': []}
+    for l in inputs:
+        t = types.get(l, '').replace('const ', '')
+        if t == 'bool':
+            by['flag'].append(l)
+        elif t == 'int':
+            by['n'].append(l)
+        elif t.startswith('std::string') or t.startswith('std::basic_string'):
+            by['echo'].append(l)
+    if any(len(v) != 1 for v in by.values()):
+        raise AnalysisBroken('CLI: the shot/echo decisions do not depend on exactly one command-line flag, one count and one echo option: %s' % (
+            {k: [names.get(l[1], '?') + ('.' + l[2] if l[0] == 'm' else '') for l in v] for k, v in by.items()}))
+    for role, v in by.items():
+        l = v[0]
+        P.inputs[role] = l + ((names.get(l[1], '?'),) if l[0] == 'm' else (names.get(l[1], '?'),))
+    for i, st in enumerate(flat):
+        if i in chosen:
+            P.stmts.append((st, 'input' if is_input_def(st) else 'exec'))
+    if not any(k == 'input' for _, k in P.stmts):
+        raise AnalysisBroken('CLI: no statement defines the command-line inputs')
+    return P
